@@ -130,6 +130,10 @@ def r2(run):
             if cls is None and recv[0] == "call" and recv[1].fn in ("std::sync::poison::mutex::Mutex::<T>::lock", "std::sync::poison::rwlock::RwLock::<T>::read",
                                                                      "std::sync::poison::rwlock::RwLock::<T>::write"):
                 cls, why = "lock-poison", "unwrap of a LockResult fails only after another thread panicked while holding the lock: not a function of the request"
+            if cls is None and recv[0] == "call" and not recv[1].local and recv[2] and all(q.peel(a)[0] == "const" for a in recv[2]):
+                # `StatusCode::from_u16(404).unwrap()`: a library function applied to literals only - whatever it does, it does not
+                # depend on the request
+                cls, why = "constant", "%s is applied to literals only: its outcome is not a function of the request" % recv[1].fn.split("::")[-1]
             if cls is None and c.fn.endswith("Index::index") and len(c.args) > 1:
                 # `buf = &buf[n..]` with n = the count an I/O call on that same buffer returned (n <= buf.len() by the Read / Write contract)
                 rng = strip(c.arg(1))
@@ -511,6 +515,11 @@ def responses_in(body):
                 n += 1
                 if x[1].fn.startswith(BUILDER_STATUS):
                     k = q.const_int(x[2][1])
+                    if k is None:
+                        # `StatusCode::from_u16(404).unwrap()`
+                        for y in walk(x[2][1]):
+                            if y[0] == "call" and y[1].fn.endswith("StatusCode::from_u16") and y[2] and q.const_int(y[2][0]) is not None:
+                                k = q.const_int(y[2][0])
                     status = k if k is not None else -1
                 if not x[2]:
                     break
